@@ -72,6 +72,8 @@ def run_shard(spec, acc):
                                 variants.append("reboot")
                             if (thorough and j < 2) or rng.random() < 0.2:
                                 variants.append("vbetween")
+                            if j == 0 and (thorough or rng.random() < 0.15):
+                                variants.append("reboot-noreopen")
                             if j == 0 and fu.name != "uiHeartbeat.hbmode" and \
                                     (thorough or rng.random() < 0.3):
                                 # (hbmode: the follow-up's own exchange count depends on
@@ -202,6 +204,34 @@ def run_case(acc, c, roles=None):
             dev.unlocked = False
         old_handle = s.bus.handle_seq
         s.bus.enumerate_fail = c["j"]
+        if c["variant"] == "reboot-noreopen":
+            # repair through the bootloader; after the signer is opened (exit), the device
+            # is not found again: the connection could not be re-established, so this
+            # request gets the device-error code and the next one repairs
+            s.bus.enumerate_fail = 1
+            s.bus.enumerate_skip = 1
+            dev.mode = MODE_BOOTLOADER
+            dev.unlocked = False
+            s.bus.arm({})
+            mark = len(s.bus.events)
+            r2, e2, _ = s.request(fu.request)
+            acc.count("reopen_failures_inside_repair")
+            if e2 is not None:
+                return bad("exception-escaped-while-reopening-inside-repair:%s:%s" % (
+                    fu.command, type(e2).__name__), exc=repr(e2))
+            if not isinstance(r2, dict) or r2.get("errorcode") != want:
+                return bad("failed-reopen-inside-repair-not-device-error:%s" % fu.command,
+                           reply=r2)
+            s.bus.enumerate_fail = 0
+            s.bus.enumerate_skip = 0
+            mark = len(s.bus.events)
+            r3, e3, _ = s.request(fu.request)
+            roles3 = [fl.role_of(e["apdu"]) for e in s.bus.apdus(mark)]
+            if e3 is not None or not isinstance(r3, dict) or \
+                    r3.get("errorcode") != baseline(fu)[2].get("errorcode"):
+                return bad("not-repaired-after-failed-reopen:%s" % fu.command, reply=r3,
+                           exc=repr(e3), roles=roles3[:8])
+            return
         if c["variant"] == "vbetween":
             # a request that needs no device ("version") neither repairs nor fails,
             # and leaves the repair pending for the next device request
